@@ -11,4 +11,5 @@ Extraction "model.ml"
   count_leq count_lt count_geq count_gt count_eq bex1 bex ball fp_f bmodel binfer retain clean
   rebuild_lit build_tt run run_infer
   verdict_fun verdict_model verdict_retain verdict_infer find_diff
-  lex_raw tokenize parse eval_f parsed_formula parsed_of_tokens ident_names name_table name_of ordering_of_file cli.
+  lex_raw tokenize parse eval_f parsed_formula parsed_of_tokens ident_names name_table name_of ordering_of_file cli
+  set_run set_ref.
